@@ -1,5 +1,5 @@
 //@PROBE file=src/trackers/sort/voting.rs test=verif_probe_sort_voting clauses=sort_voting
-//@BOUND exhaustive over 1..=3 detections x 1..=3 tracks, every weight matrix over the grid {absent, 0.10, 0.29, 0.31, 0.50, 0.90} straddling the thresholds 0.3 and 0.5; every 53rd matrix also with 20000 more tracks declared to the engine than take part; compared with brute-force maximum-weight one-to-one assignment (unmatched = threshold)
+//@BOUND exhaustive over 1..=3 detections x 1..=3 tracks, every weight matrix over the grid {absent, 0.10, 0.29, 0.31, 0.50, 0.90} straddling the thresholds 0.3 and 0.5; every 53rd matrix also with 20000 more tracks declared to the engine than take part; plus streams in which one query has only zero / absent / sub-resolution metrics (it is answered with itself); compared with brute-force maximum-weight one-to-one assignment (unmatched = threshold)
 #[cfg(test)]
 mod verif_probe_sort_voting {
     // Bounded stand-in for SortVoting::winners (HashMap + external Hungarian solver: outside both verifiers).
@@ -89,6 +89,26 @@ mod verif_probe_sort_voting {
                 }
             }
         }
+        // ---- every query that appears in the stream is answered - by one track or by itself -, also when all its records carry a zero or
+        // absent metric, or one below the engine's 1e-6 resolution
+        for thr in [0.3f32, 0.5] { for weak in [None, Some(0.0f32), Some(4.0e-7)] { for rot in 0..4usize {
+            cases += 1;
+            let mut stream = vec![
+                ObservationMetricOk::<Universal2DBox>::new(1000, 1, Some(0.9), None),
+                ObservationMetricOk::<Universal2DBox>::new(1001, 1, weak, None),
+                ObservationMetricOk::<Universal2DBox>::new(1001, 2, weak, None),
+                ObservationMetricOk::<Universal2DBox>::new(1002, 2, Some(0.8), None),
+            ];
+            stream.rotate_left(rot);
+            let win = SortVoting::new(thr, 3, 2).winners(stream);
+            let ctx = format!("PROBE input: sort_voting threshold={} stream with a query (1001) whose records all carry the metric {:?}, rotated by {}", thr, weak, rot);
+            for (q, want) in [(1000u64, 1u64), (1001, 1001), (1002, 2)] {
+                match win.get(&q) {
+                    Some(v) if v.len() == 1 && v[0] == want => {}
+                    other => failures.push(format!("{}: query {} must be answered with {} (one track or itself), got {:?}", ctx, q, want, other)),
+                }
+            }
+        } } }
         eprintln!("PROBE cases={}", cases);
         for f in failures.iter().take(20) { eprintln!("{}", f); }
         assert!(failures.is_empty(), "PROBE found {} failing inputs; first: {}", failures.len(), failures[0]);
